@@ -24,7 +24,7 @@ def register(R):
     f.update({"alpha": "Real", "bootstrap_samples": "Int", "count_ubound": "Int", "cutpoint_proportion_lbound": "Real",
               "window_size": "Int", "persistence": "Real", "_ref_data": "NdRows", "_test_data_size": "Nat",
               "_kdqtree": "Opt[KTree]", "_critical_dist": "Opt[Real]", "_test_dist": "Opt[Real]", "_drift_counter": "Nat"})
-    R.klass(KS, fields=f, invariant=STREAM_INV + [
+    R.klass(KS, fields=f, ghost={"ref_rows": "Int"}, invariant=STREAM_INV + [
         ("C09", "self.window_size >= 1"),
         ("C09", "implies(self._kdqtree is None, len(self._ref_data) < self.window_size)"),
         ("C09", "implies(self._kdqtree is not None, self._critical_dist is not None)"),
@@ -41,7 +41,17 @@ def register(R):
                         "self._drift_counter == 0", "len(self._ref_data) == 0",
                         "self._total_samples == old(self._total_samples)"],
                modifies=["_kdqtree", "_critical_dist", "_test_data_size", "_test_dist", "_samples_since_reset", "_drift_state",
-                         "_drift_counter", "_ref_data"], check_invariant=False)
+                         "_drift_counter", "_ref_data"], check_invariant=False,
+               # ghost: number of rows of the block the current tree was built from
+               ghost_update=["self.ghost.ref_rows = len(ary)"],
+               # KdqTreeBatch inherits it with the batch counters (reset is BatchDetector.reset + KdqTreeDetector.reset)
+               for_class={"KdqTreeBatch": dict(
+                   params={"ary": "Nd2", "input_type": "Str"},
+                   ensures=["self._kdqtree is not None", "self._critical_dist is not None", "self._test_data_size == 0",
+                            "self._test_dist is None", "self._batches_since_reset == 0", "self._drift_state is None",
+                            "self._total_batches == old(self._total_batches)", "len(self._ref_data) == 0"],
+                   modifies=["_kdqtree", "_critical_dist", "_test_data_size", "_test_dist", "_batches_since_reset", "_drift_state",
+                             "_ref_data"])})
     REJECT = ("(is_df(X) and self._input_cols is not None and not cols_equal(cols(X), self._input_cols)) or "
               "((not is_df(X)) and self._input_col_dim is not None and width(X) != self._input_col_dim) or rows(X) != 1")
     R.contract(KS + ".update", tags=("C09", "C01"), params={"X": "RawX", "y_true": "RawY", "y_pred": "RawY"},
@@ -70,6 +80,7 @@ def register(R):
                ],
                modifies=["_total_samples", "_samples_since_reset", "_drift_state", "_input_cols", "_input_col_dim", "_ref_data",
                          "_test_data_size", "_kdqtree", "_critical_dist", "_test_dist", "_drift_counter"])
+    register_batch(R)
     R.contract(KS + ".reset", tags=("C02", "C09"), params={},
                ensures=["self._samples_since_reset == 0 and self._drift_state is None and self._kdqtree is None and "
                         "self._test_data_size == 0 and self._drift_counter == 0 and len(self._ref_data) == 0 and "
@@ -77,3 +88,66 @@ def register(R):
                         "self._total_samples == old(self._total_samples)"],
                modifies=["_samples_since_reset", "_drift_state", "_ref_data", "_test_data_size", "_kdqtree", "_critical_dist",
                          "_test_dist", "_drift_counter"])
+
+
+KB = "menelaus.data_drift.kdq_tree:KdqTreeBatch"
+B_REJECT = ("(is_df(X) and self._input_cols is not None and not cols_equal(cols(X), self._input_cols)) or "
+            "((not is_df(X)) and self._input_col_dim is not None and bwidth(X) != self._input_col_dim) or brows(X) <= 1")
+
+
+def register_batch(R):
+    from .detector_base import BATCH_FIELDS, MEMO_INV
+    f = dict(BATCH_FIELDS)
+    f.update({"alpha": "Real", "bootstrap_samples": "Int", "count_ubound": "Int", "cutpoint_proportion_lbound": "Real",
+              "_ref_data": "NdRows", "_test_data_size": "Nat", "_kdqtree": "Opt[KTree]", "_critical_dist": "Opt[Real]",
+              "_test_dist": "Opt[Real]", "ref_data": "Nd2"})
+    R.klass(KB, fields=f, ghost={"ref_rows": "Int"}, invariant=[
+        ("C01", "self._drift_state is None or self._drift_state == 'drift'"),
+        ("C01", "0 <= self._batches_since_reset and self._batches_since_reset <= self._total_batches"),
+        ("C09", "implies(self._kdqtree is not None, self._critical_dist is not None)"),
+        ("C09", "implies(self._drift_state == 'drift', self._kdqtree is not None)"),
+        ("C09", "implies(self._kdqtree is None, len(self._ref_data) == 0)"),
+        # the remembered batch was an accepted input: re-validating it at the next update cannot fail
+        ("C09", "implies(self._drift_state == 'drift', self._input_col_dim is not None and "
+                "self.ref_data.shape[1] == self._input_col_dim and self.ref_data.shape[0] >= 2)"),
+    ] + list(MEMO_INV))
+    R.contract(KB + ".update", tags=("C09", "C01"), params={"X": "RawX", "y_true": "RawY", "y_pred": "RawY"},
+               reads_not=["y_true", "y_pred"], reads_not_tags=("C16",),
+               calls={KD + "._inner_set_reference": "contract"},
+               raises={"ValueError": {"when": B_REJECT, "iff": True, "tags": "C14", "ensures": [
+                   ("C14", "self._total_batches == old(self._total_batches)")]}},
+               ensures=[
+                   ("C01", "self._total_batches == old(self._total_batches) + 1"),
+                   # building a reference restarts the epoch counter (the reference batch is batch 0 of its epoch)
+                   ("C01", "self._batches_since_reset == (0 if (old(self._kdqtree) is None and not %s) else "
+                           "(1 if %s else old(self._batches_since_reset) + 1))" % (FRESH, FRESH)),
+                   # first batch after construction / user reset: it becomes the reference, nothing is reported
+                   ("C09", "implies(old(self._kdqtree) is None and not %s, self._kdqtree is not None and self._drift_state is None)" % FRESH),
+                   # otherwise: drift exactly when the stored divergence exceeds the stored critical value
+                   ("C09", "implies(old(self._kdqtree) is not None or %s, (self._drift_state == 'drift') == "
+                           "(self._test_dist > self._critical_dist))" % FRESH),
+                   # the drifted batch is remembered as the next reference ...
+                   ("C09", "implies(self._drift_state == 'drift', self.ref_data.shape[0] == brows(X) and self.ref_data.shape[1] == bwidth(X) and "
+                           "forall(i, 0, brows(X), forall(j, 0, bwidth(X), self.ref_data[i][j] == bval(X, i, j))))"),
+                   # ... and after a drift the tree is rebuilt from it before the new batch is examined
+                   ("C09", "implies(%s, self.ghost.ref_rows == old(self.ref_data).shape[0])" % FRESH),
+                   ("C09", "implies(old(self._kdqtree) is None and not %s, self.ghost.ref_rows == brows(X))" % FRESH),
+                   ("C09", "implies(old(self._kdqtree) is not None and not %s, self.ghost.ref_rows == old(self.ghost.ref_rows))" % FRESH),
+               ],
+               modifies=["_total_batches", "_batches_since_reset", "_drift_state", "_input_cols", "_input_col_dim", "_ref_data",
+                         "_test_data_size", "_kdqtree", "_critical_dist", "_test_dist", "ref_data"])
+    R.contract(KB + ".set_reference", tags=("C09",), params={"X": "RawX", "y_true": "RawY", "y_pred": "RawY"},
+               reads_not=["y_true", "y_pred"], reads_not_tags=("C16",),
+               calls={KD + "._inner_set_reference": "contract"},
+               raises={"ValueError": {"when": B_REJECT, "iff": True, "tags": "C14", "ensures": [("C14", "unchanged(self)")]}},
+               ensures=["self._kdqtree is not None and self._drift_state is None and self._batches_since_reset == 0",
+                        "self._total_batches == old(self._total_batches)", "self.ghost.ref_rows == brows(X)",
+                        "self._test_dist is None and self._test_data_size == 0"],
+               modifies=["_batches_since_reset", "_drift_state", "_input_cols", "_input_col_dim", "_ref_data",
+                         "_test_data_size", "_kdqtree", "_critical_dist", "_test_dist"])
+    R.contract(KB + ".reset", tags=("C02", "C09"), params={},
+               ensures=["self._batches_since_reset == 0 and self._drift_state is None and self._kdqtree is None and "
+                        "self._test_data_size == 0 and len(self._ref_data) == 0 and self._critical_dist is None and "
+                        "self._test_dist is None", "self._total_batches == old(self._total_batches)"],
+               modifies=["_batches_since_reset", "_drift_state", "_ref_data", "_test_data_size", "_kdqtree", "_critical_dist",
+                         "_test_dist"])
